@@ -74,6 +74,7 @@ class SimFS:
         self.error_at = None  # set of op indices whose syscall fails with ENOSPC
         self.errors_fired = 0
         self.on_error = None
+        self.error_bytes = None  # for a failing write(): this many bytes reach the disk before ENOSPC is raised
         self._die_after = False
         self.fds = {}  # raw fds handed out by os.open -> path
         self.simfiles = {}  # fd -> SimFile (for sendfile / copy_file_range into our files)
@@ -110,6 +111,11 @@ class SimFS:
             self.errors_fired += 1
             if self.on_error is not None:
                 self.on_error()
+            if kind == "write" and self.error_bytes:
+                # the disk fills up in the middle of this write: a prefix is persisted, then the call fails
+                self._pending_fault = DiskFault(errno.ENOSPC, "No space left on device (injected, partial write)",
+                                                os.fspath(path) if path is not None else None)
+                return min(nbytes, int(self.error_bytes))
             raise DiskFault(errno.ENOSPC, "No space left on device (injected)", os.fspath(path) if path is not None else None)
         if self.crash_at is not None and idx == self.crash_at[0]:
             if kind == "write":
@@ -188,6 +194,10 @@ class SimFile(io.BufferedIOBase):
         while len(view):
             n = _real["os.write"](self.fd, view)
             view = view[n:]
+        pf = getattr(self.fs, "_pending_fault", None)
+        if pf is not None:
+            self.fs._pending_fault = None
+            raise pf
         if allowed < len(data) or (self.fs.crash_at is not None and len(self.fs.ops) - 1 == self.fs.crash_at[0]):
             self.fs._die()
         return len(data)
